@@ -126,7 +126,7 @@ def strategy(tier):
     @st.composite
     def build(draw):
         pools = {"fc": FC_KEYS, "rc": gen.RC_POOL[:5]}
-        ast = draw(gen.g_dom(max_atoms=size, mode="valid", pools=pools, fc_dense=True, neutral_root=False))
+        ast = draw(gen.g_dom(max_atoms=size, mode="valid", pools=pools, fc_dense=True, neutral_root=False, fc_groups=True))
         if not ref.keys_of(ast, "fc"):
             ast = ["then", [ast, ["fc", draw(st.sampled_from(FC_KEYS))]]]
         keys = ref.keys_of(ast, "rc")
